@@ -119,3 +119,230 @@
         #[verifier::external_body]
         fn clone(&self) -> (r: Self) ensures r.view() == self.view() { unimplemented!() }
     }
+
+    // ---------------------------------------------------------------- header map
+    /// ASCII lower-casing of header names (http stores names lower-cased)
+    pub open spec fn lower_byte(c: u8) -> u8 { if 65 <= c <= 90 { (c + 32) as u8 } else { c } }
+    pub open spec fn lower(b: Seq<u8>) -> Seq<u8> { Seq::new(b.len(), |i: int| lower_byte(b[i])) }
+    /// one header field as the model sees it: lower-cased name bytes, value bytes
+    pub struct Hdr { pub name: Seq<u8>, pub value: Seq<u8> }
+    /// valid header name for `http`: non-empty token, shorter than 64 KiB
+    pub uninterp spec fn is_token(b: Seq<u8>) -> bool;
+    pub open spec fn valid_name(b: Seq<u8>) -> bool { is_token(b) && 0 < b.len() < 65536 }
+    /// valid header value bytes for `http`: HTAB, 0x20..=0x7e, 0x80..=0xff
+    pub open spec fn valid_value(b: Seq<u8>) -> bool { forall|i: int| 0 <= i < b.len() ==> (#[trigger] b[i] >= 32 && b[i] != 127) || b[i] == 9 }
+
+    /// first value of the named field
+    pub open spec fn first_value(e: Seq<Hdr>, name: Seq<u8>) -> Option<Seq<u8>>
+        decreases e.len()
+    {
+        if e.len() == 0 { None } else if e[0].name == name { Some(e[0].value) } else { first_value(e.subrange(1, e.len() as int), name) }
+    }
+    /// last value of the named field
+    pub open spec fn last_value(e: Seq<Hdr>, name: Seq<u8>) -> Option<Seq<u8>>
+        decreases e.len()
+    {
+        if e.len() == 0 { None } else if e.last().name == name { Some(e.last().value) } else { last_value(e.drop_last(), name) }
+    }
+    pub open spec fn has_name(e: Seq<Hdr>, name: Seq<u8>) -> bool { exists|i: int| 0 <= i < e.len() && e[i].name == name }
+    pub open spec fn has_field(e: Seq<Hdr>, name: Seq<u8>, value: Seq<u8>) -> bool { exists|i: int| 0 <= i < e.len() && e[i].name == name && e[i].value == value }
+
+    #[verifier::external_body]
+    #[derive(Debug)]
+    pub struct HeaderMap { _p: () }
+    impl HeaderMap {
+        /// all fields in the order `iter()` yields them (fields of one name are adjacent and in insertion order)
+        pub uninterp spec fn entries(&self) -> Seq<Hdr>;
+        #[verifier::external_body]
+        pub fn new() -> (r: HeaderMap) ensures r.entries() =~= Seq::<Hdr>::empty() { unimplemented!() }
+        #[verifier::external_body]
+        pub fn get(&self, name: &str) -> (r: Option<&HeaderValue>)
+            ensures match first_value(self.entries(), lower(crate::str_bytes(name))) { Some(v) => r is Some && r->Some_0.view() == v, None => r is None }
+        { unimplemented!() }
+        #[verifier::external_body]
+        pub fn contains_key(&self, name: &str) -> (r: bool)
+            ensures r == has_name(self.entries(), lower(crate::str_bytes(name)))
+        { unimplemented!() }
+        #[verifier::external_body]
+        pub fn is_empty(&self) -> (r: bool) ensures r == (self.entries().len() == 0) { unimplemented!() }
+        /// `insert` replaces every field of that name by the one given
+        #[verifier::external_body]
+        pub fn insert(&mut self, name: &'static str, value: HeaderValue) -> (r: Option<HeaderValue>)
+            ensures
+                has_field(final(self).entries(), lower(crate::str_bytes(name)), value.view()),
+                forall|n: Seq<u8>, v: Seq<u8>| n != lower(crate::str_bytes(name)) ==> (has_field(final(self).entries(), n, v) <==> has_field(old(self).entries(), n, v)),
+                forall|n: Seq<u8>| n != lower(crate::str_bytes(name)) ==> first_value(final(self).entries(), n) == first_value(old(self).entries(), n) && last_value(final(self).entries(), n) == last_value(old(self).entries(), n),
+                first_value(final(self).entries(), lower(crate::str_bytes(name))) == Some(value.view()),
+        { unimplemented!() }
+    }
+
+    // ---------------------------------------------------------------- Uri
+    #[verifier::external_body]
+    #[derive(Debug)]
+    pub struct Uri { _p: () }
+    pub mod uri {
+        use vstd::prelude::*;
+        #[verifier::external_body]
+        #[derive(Debug)]
+        pub struct Scheme { _p: () }
+        impl Scheme {
+            pub uninterp spec fn view(&self) -> Seq<u8>;
+        }
+        #[verifier::external_body]
+        #[derive(Debug)]
+        pub struct Authority { _p: () }
+        #[verifier::external_body]
+        #[derive(Debug)]
+        pub struct PathAndQuery { _p: () }
+    }
+    impl Uri {
+        /// host of the authority, None for a relative URI
+        pub uninterp spec fn spec_host(&self) -> Option<Seq<u8>>;
+        /// scheme ("http" / "https" ...), None if absent
+        pub uninterp spec fn spec_scheme(&self) -> Option<Seq<u8>>;
+        /// path and query as sent in the request line, None if empty
+        pub uninterp spec fn spec_path_and_query(&self) -> Option<Seq<u8>>;
+        /// textual form (`to_string`)
+        pub uninterp spec fn spec_text(&self) -> Seq<u8>;
+        #[verifier::external_body]
+        pub fn host(&self) -> (r: Option<&str>)
+            ensures match self.spec_host() { Some(h) => r is Some && crate::str_bytes(r->Some_0) == h, None => r is None }
+        { unimplemented!() }
+    }
+
+    // ---------------------------------------------------------------- Request / Response
+    #[verifier::external_body]
+    #[verifier::accept_recursive_types(B)]
+    #[derive(Debug)]
+    pub struct Request<B> { _b: core::marker::PhantomData<B> }
+    impl<B> Request<B> {
+        pub uninterp spec fn spec_method(&self) -> Method;
+        pub uninterp spec fn spec_version(&self) -> Version;
+        pub uninterp spec fn spec_headers(&self) -> HeaderMap;
+        pub uninterp spec fn spec_uri(&self) -> Uri;
+        pub uninterp spec fn spec_body(&self) -> B;
+        #[verifier::external_body]
+        pub fn method(&self) -> (r: &Method) ensures *r == self.spec_method() { unimplemented!() }
+        #[verifier::external_body]
+        pub fn version(&self) -> (r: Version) ensures r == self.spec_version() { unimplemented!() }
+        #[verifier::external_body]
+        pub fn headers(&self) -> (r: &HeaderMap) ensures *r == self.spec_headers() { unimplemented!() }
+        #[verifier::external_body]
+        pub fn uri(&self) -> (r: &Uri) ensures *r == self.spec_uri() { unimplemented!() }
+    }
+
+    #[verifier::external_body]
+    #[verifier::accept_recursive_types(B)]
+    #[derive(Debug)]
+    pub struct Response<B> { _b: core::marker::PhantomData<B> }
+    impl<B> Response<B> {
+        pub uninterp spec fn spec_status(&self) -> StatusCode;
+        pub uninterp spec fn spec_version(&self) -> Version;
+        pub uninterp spec fn spec_headers(&self) -> HeaderMap;
+        #[verifier::external_body]
+        pub fn status(&self) -> (r: StatusCode) ensures r == self.spec_status() { unimplemented!() }
+        #[verifier::external_body]
+        pub fn version(&self) -> (r: Version) ensures r == self.spec_version() { unimplemented!() }
+        #[verifier::external_body]
+        pub fn headers(&self) -> (r: &HeaderMap) ensures *r == self.spec_headers() { unimplemented!() }
+        #[verifier::external_body]
+        pub fn headers_mut(&mut self) -> (r: &mut HeaderMap)
+            ensures *r == old(self).spec_headers(), *final(r) == final(self).spec_headers(),
+                final(self).spec_status() == old(self).spec_status(), final(self).spec_version() == old(self).spec_version()
+        { unimplemented!() }
+    }
+    impl Response<()> {
+        #[verifier::external_body]
+        pub fn builder() -> (r: response::Builder)
+            ensures r.state() == Ok::<response::Parts, ()>(response::Parts { version: Version::HTTP_11, status: StatusCode(200), headers: Seq::<Hdr>::empty() })
+        { unimplemented!() }
+    }
+    impl Request<()> {
+        #[verifier::external_body]
+        pub fn builder() -> (r: request::Builder)
+            ensures r.state() == Ok::<request::Parts, ()>(request::Parts { version: Version::HTTP_11, method: Method::GET, headers: Seq::<Hdr>::empty() })
+        { unimplemented!() }
+    }
+    /// http::Error (opaque)
+    #[verifier::external_body]
+    #[derive(Debug)]
+    pub struct Error { _p: () }
+
+    pub mod response {
+        use vstd::prelude::*;
+        use super::*;
+        pub struct Parts { pub version: Version, pub status: StatusCode, pub headers: Seq<Hdr> }
+        /// http::response::Builder: either the parts collected so far or a recorded error
+        #[verifier::external_body]
+        pub struct Builder { _p: () }
+        impl Builder {
+            pub uninterp spec fn state(&self) -> Result<Parts, ()>;
+            #[verifier::external_body]
+            pub fn version(self, version: Version) -> (r: Builder)
+                ensures r.state() == match self.state() { Ok(p) => Ok::<Parts, ()>(Parts { version, ..p }), Err(e) => Err(e) }
+            { unimplemented!() }
+            #[verifier::external_body]
+            pub fn status(self, status: StatusCode) -> (r: Builder)
+                ensures r.state() == match self.state() { Ok(p) => Ok::<Parts, ()>(Parts { status, ..p }), Err(e) => Err(e) }
+            { unimplemented!() }
+            /// appends the field; records an error (never panics) on an invalid name or value
+            #[verifier::external_body]
+            pub fn header(self, name: &str, value: &[u8]) -> (r: Builder)
+                ensures r.state() == match self.state() {
+                    Ok(p) => if valid_name(crate::str_bytes(name)) && valid_value(value@) {
+                            Ok::<Parts, ()>(Parts { headers: p.headers.push(Hdr { name: lower(crate::str_bytes(name)), value: value@ }), ..p })
+                        } else { Err(()) },
+                    Err(e) => Err(e) }
+            { unimplemented!() }
+            #[verifier::external_body]
+            pub fn body(self, body: ()) -> (r: Result<Response<()>, super::Error>)
+                ensures match self.state() {
+                    Ok(p) => r is Ok && r->Ok_0.spec_version() == p.version && r->Ok_0.spec_status() == p.status && hdr_multiset_order(r->Ok_0.spec_headers().entries(), p.headers),
+                    Err(_) => r is Err }
+            { unimplemented!() }
+        }
+    }
+    pub mod request {
+        use vstd::prelude::*;
+        use super::*;
+        pub struct Parts { pub version: Version, pub method: Method, pub headers: Seq<Hdr> }
+        #[verifier::external_body]
+        pub struct Builder { _p: () }
+        impl Builder {
+            pub uninterp spec fn state(&self) -> Result<Parts, ()>;
+            #[verifier::external_body]
+            pub fn version(self, version: Version) -> (r: Builder)
+                ensures r.state() == match self.state() { Ok(p) => Ok::<Parts, ()>(Parts { version, ..p }), Err(e) => Err(e) }
+            { unimplemented!() }
+            #[verifier::external_body]
+            pub fn method(self, method: Method) -> (r: Builder)
+                ensures r.state() == match self.state() { Ok(p) => Ok::<Parts, ()>(Parts { method, ..p }), Err(e) => Err(e) }
+            { unimplemented!() }
+            #[verifier::external_body]
+            pub fn header(self, name: &str, value: &[u8]) -> (r: Builder)
+                ensures r.state() == match self.state() {
+                    Ok(p) => if valid_name(crate::str_bytes(name)) && valid_value(value@) {
+                            Ok::<Parts, ()>(Parts { headers: p.headers.push(Hdr { name: lower(crate::str_bytes(name)), value: value@ }), ..p })
+                        } else { Err(()) },
+                    Err(e) => Err(e) }
+            { unimplemented!() }
+            #[verifier::external_body]
+            pub fn body(self, body: ()) -> (r: Result<Request<()>, super::Error>)
+                ensures match self.state() {
+                    Ok(p) => r is Ok && r->Ok_0.spec_version() == p.version && r->Ok_0.spec_method() == p.method && hdr_multiset_order(r->Ok_0.spec_headers().entries(), p.headers),
+                    Err(_) => r is Err }
+            { unimplemented!() }
+        }
+    }
+    /// the map built from `appended` (in append order) holds exactly those fields; fields of equal name keep
+    /// their relative order (HeaderMap groups fields by name, so the global order may differ)
+    pub open spec fn hdr_multiset_order(entries: Seq<Hdr>, appended: Seq<Hdr>) -> bool {
+        &&& entries.len() == appended.len()
+        &&& forall|n: Seq<u8>| #[trigger] by_name(entries, n) == by_name(appended, n)
+    }
+    /// the values of the fields named n, in order
+    pub open spec fn by_name(e: Seq<Hdr>, n: Seq<u8>) -> Seq<Seq<u8>>
+        decreases e.len()
+    {
+        if e.len() == 0 { Seq::<Seq<u8>>::empty() } else if e.last().name == n { by_name(e.drop_last(), n).push(e.last().value) } else { by_name(e.drop_last(), n) }
+    }
